@@ -385,13 +385,17 @@ def once(index, rep):
 
 def describe(rep):
     rep.explanation = (
-        "Static analysis of run_model_no_trade.py and the shipped country table. C15.ACC: block-structure and def-use rules "
-        "show that inside the single pass over the table the numerator gets min(1, ratio) x population and the denominator "
-        "population, in the same basic block with no exit between, both zero-initialised, never written elsewhere, every "
-        "`continue` before them, results stored with them, returned in slots 1-3; ratio = percent fed / 100 of the same "
+        "Static analysis of run_model_no_trade.py and the shipped country table. C15.ACC: one iteration of the single pass over "
+        "the table is abstractly evaluated for a symbolic row and symbolic running totals, forking on every data-dependent test "
+        "(selection membership, NaN population, NaN result, ratio >= 1, return_results); every feasible path either leaves the "
+        "country out for a stated reason with both totals and the results untouched, or adds the population of the optimised row "
+        "to the denominator, min(1, ratio) x that population to the numerator and stores the result once under the country's "
+        "name; both totals start at zero, change only inside the loop and are returned as plain names; ratio = percent fed / 100 "
+        "of the same "
         "row. C15.SEL: get_countries_to_run_and_skip is abstractly evaluated on lists of 0..3 symbolic country codes, forking "
         "on every '!'-pattern (15 cases), and the returned (inclusion, exclusion) lists are compared with the documented "
-        "semantics; the caller unpacks them in that order and applies both filters before any accumulation. C15.ONCE: iso3 "
+        "semantics; the caller unpacks them in that order, and on every counted path of the evaluated iteration the row's iso3 code "
+        "was tested against the skip list and the non-empty inclusion list. C15.ONCE: iso3 "
         "and country are unique in the 164-row table and the run sits in one top-level loop. 0 <= aggregate <= 1 then "
         "follows from a non-negative ratio (objective variable has lowBound 0, C01.NONNEG)."
     )
